@@ -116,8 +116,10 @@ Verdict_encode2(e) ==
         \* a complete message: status 0x00, then nothing or exactly one whole CBOR item
         complete(m) == /\ Len(m) >= 1 /\ m[1] = 0
                        /\ (Len(m) = 1 \/ (LET r == ParseItem(m, 2) IN r.ok /\ r.p = Len(m) + 1))
-        c17 == /\ complete(big)                                  \* the 7609-byte buffer always fits
-               /\ (o.buf = <<ST_Other>> \/ complete(o.buf))      \* never a truncated body
+        \* the status byte alone is the complete message only of a response with no member set
+        whole(m) == complete(m) /\ (Len(m) = 1 => Len(exp) = 1)
+        c17 == /\ whole(big)                                     \* the 7609-byte buffer always fits
+               /\ (o.buf = <<ST_Other>> \/ whole(o.buf))         \* never a truncated body
                /\ (Len(big) <= e.in.cap => o.buf = big)
                /\ (Len(big) > e.in.cap => o.buf = <<ST_Other>>)
                /\ o.buf_alt = o.buf                              \* independent of previous contents
